@@ -85,6 +85,25 @@ def patch_twins():
     return out
 
 
+def thorough_slice(twins, pid):
+    """What one thorough run re-analyses: every structural refactoring (R*, S*), every small-edit twin written against this very
+    property (T-/U-/V-/W-<pid>-*), and a deterministic quarter of the remaining small-edit twins (offset by the property number), so
+    that the 20 thorough runs together cover each twin five times over.  `tools/refaceval.py /verif/twins` analyses all of them
+    with all checks."""
+    off = int(pid[1:]) % 4
+    out, k = [], 0
+    for name, pf in twins:
+        if name[0] in "RS" and name[1].isdigit():
+            out.append((name, pf))
+        elif f"-{pid}-" in name:
+            out.append((name, pf))
+        else:
+            if k % 4 == off:
+                out.append((name, pf))
+            k += 1
+    return out
+
+
 def analyse_variant(args):
     root, mid, edits, pids = args
     from ..build import Analysis
@@ -122,7 +141,7 @@ def run(pid, root, ana, jobs=None):
     if not entries:
         return res
     work = [(root, m["id"], m["edits"], [pid]) for m in entries]
-    ptw = patch_twins()
+    ptw = thorough_slice(patch_twins(), pid)
     work += [(root, "patch:" + k, pf, [pid]) for k, pf in ptw]
     res["patch_twins_applied"] = 0
     res["patch_twins_silent"] = 0
